@@ -190,7 +190,7 @@ def c_facade_forward(c, has_pre, has_post, where):
 
 
 # ---- do_randomize phase order (C17, C16, C06) -----------------------------------------------------------
-@contract("randomizer.do_randomize.order", ["C17", "C16", "C06", "C05", "C03"], ["vsc.model.randomizer.Randomizer.do_randomize"],
+@contract("randomizer.do_randomize.order", ["C17", "C16", "C06", "C05", "C03", "C02", "C01"], ["vsc.model.randomizer.Randomizer.do_randomize"],
           lambda tier, seed: [(n, inl, fail) for n in (1, 2) for inl in (False, True) for fail in ("no", "solve", "pre", "post")],
           replay="none")
 def c_do_randomize(c, nroots, inline, fail):
